@@ -425,6 +425,36 @@ func c11APICoverage(c *core.Ctx, rule string, regs []c11Registry) {
 	c.RequireCount(rule, "exported Create/Update/Apply methods of TrafficController that reach a registry Store", n, 6)
 }
 
+// c11EntityFactoryCall: the call builds a new object entity from configuration — by type, not
+// by name: it returns (*supervisor.ObjectEntity, error) and takes the config text (a string)
+// or a *supervisor.Spec. Works for the concrete Supervisor methods, for an interface put in
+// front of them (entityFactory) and for a function value.
+func c11EntityFactoryCall(f *flow.Func, call *ast.CallExpr) bool {
+	tv, ok := f.Info.Types[call]
+	if !ok || tv.Type == nil {
+		return false
+	}
+	tup, ok := tv.Type.(*types.Tuple)
+	if !ok || tup.Len() != 2 || !c11IsNamed(tup.At(0).Type(), Mod+c11Sup, "ObjectEntity") || !c11IsErrorT(tup.At(1).Type()) {
+		return false
+	}
+	if len(call.Args) != 1 {
+		return false
+	}
+	av, ok := f.Info.Types[call.Args[0]]
+	if !ok || av.Type == nil {
+		return false
+	}
+	if b, ok := av.Type.Underlying().(*types.Basic); ok && b.Info()&types.IsString != 0 {
+		return true
+	}
+	return c11IsNamed(av.Type, Mod+c11Sup, "Spec")
+}
+
+func c11IsErrorT(t types.Type) bool {
+	return types.Identical(t, types.Universe.Lookup("error").Type())
+}
+
 // c11NoOp: R-C11-4.
 func c11NoOp(c *core.Ctx) {
 	regs := c11Registries(c)
@@ -566,10 +596,15 @@ func c11NoOp(c *core.Ctx) {
 		if fd.Recv == nil || len(fd.Recv.List) != 1 || load.RecvName(fd.Recv.List[0].Type) != "ObjectRegistry" {
 			return false
 		}
-		return len(callsTo(g, g.Body, true, "(*"+c11Sup+".Supervisor).NewObjectEntityFromConfig")) > 0
+		for _, call := range calls(g.Body, true) {
+			if c11EntityFactoryCall(g, call) {
+				return true
+			}
+		}
+		return false
 	})
 	if len(cands) != 1 {
-		c.Errorf("R-C11-4: anchor: expected one method of ObjectRegistry that builds entities with NewObjectEntityFromConfig, found %d", len(cands))
+		c.Errorf("R-C11-4: anchor: expected one method of ObjectRegistry that builds entities from configuration text (a call returning (*ObjectEntity, error) for a string), found %d", len(cands))
 		return
 	}
 	f = cands[0]
@@ -579,7 +614,7 @@ func c11NoOp(c *core.Ctx) {
 	var entObj types.Object
 	ast.Inspect(f.Body, func(n ast.Node) bool {
 		if as, ok := n.(*ast.AssignStmt); ok && len(as.Rhs) == 1 {
-			if call, ok := ast.Unparen(as.Rhs[0]).(*ast.CallExpr); ok && calleeIs(f, call, "(*"+c11Sup+".Supervisor).NewObjectEntityFromConfig", "(*"+c11Sup+".Supervisor).NewObjectEntityFromSpec") {
+			if call, ok := ast.Unparen(as.Rhs[0]).(*ast.CallExpr); ok && c11EntityFactoryCall(f, call) {
 				if id, ok := as.Lhs[0].(*ast.Ident); ok {
 					if o := f.Info.Defs[id]; o != nil {
 						entObj = o
